@@ -42,6 +42,13 @@ func qual(p *types.Package) string {
 	if p == nil {
 		return ""
 	}
+	if p.Name() == "main" { // several commands: qualify by directory
+		path := p.Path()
+		if i := strings.LastIndex(path, "/"); i >= 0 {
+			return path[i+1:]
+		}
+		return path
+	}
 	return p.Name()
 }
 
@@ -59,10 +66,10 @@ func funcKey(f *ssa.Function) string {
 		return funcKey(f.Parent()) + "$" + strings.TrimPrefix(f.Name(), f.Parent().Name()+"$")
 	}
 	if f.Pkg != nil {
-		return f.Pkg.Pkg.Name() + "." + f.Name()
+		return qual(f.Pkg.Pkg) + "." + f.Name()
 	}
 	if f.Object() != nil && f.Object().Pkg() != nil {
-		return f.Object().Pkg().Name() + "." + f.Name()
+		return qual(f.Object().Pkg()) + "." + f.Name()
 	}
 	return f.String()
 }
